@@ -26,9 +26,9 @@ def translate(ctx):
 def correspond(ctx):
     cvxopt = vlib.use_build(ctx.build)
     n = 25 if ctx.quick() else 500
-    stats, tags, judged, lines = certlib.cone_runs(ctx, cvxopt, ['optimal', 'optimal', 'optimal', 'pinf', 'dinf'], n, 4 if ctx.quick() else 6, 'c01')
+    stats, tags, judged, lines = certlib.cone_runs(ctx, cvxopt, ['optimal', 'optimal', 'optimal', 'pinf', 'dinf'], n, 4 if ctx.quick() else 6, 'c01', rankdef=12 if ctx.quick() else 60)
     ctx.cov.update({'evaluations': stats['solves'], 'distinct_nontrivial': judged,
-                    'rule': 'planted cone LPs (random dims l/q/s incl. empty and order-0/1 blocks, p in 0..2; 60% strictly feasible pairs, 20% Farkas, '
+                    'rule': 'rank-deficient epigraph LPs (collinear columns; any status returned is judged) and planted cone LPs (random dims l/q/s incl. empty and order-0/1 blocks, p in 0..2; 60% strictly feasible pairs, 20% Farkas, '
                             '20% rays) x presentations (kktsolver names, callable KKT solver, sparse, junk upper triangles, start points, random '
                             'tolerance/refinement options, lp/socp/sdp wrappers, glpk); non-trivial = results judged by the Lean checker',
                     'statuses': stats, 'presentations': tags})
